@@ -3,7 +3,9 @@ from __future__ import annotations
 
 from hypothesis import strategies as st
 
-from .gen import G, Cx, init_stores
+from . import nodes as N
+
+from .gen import G, Cx, init_stores, f6_guard_loads
 
 
 def potential_cycles(may_call):
@@ -62,6 +64,7 @@ def sub_recipe(draw, max_budget=60, opts=None, min_level=4):
     for _ in range(g.i(0, 2)):
         g.new_var(g.pick(["U", "B"]), cxm)
     # routine bodies
+    nguards = 0
     for i, r in enumerate(g.routines):
         rinfo = {"ret": r["ret"], "params": {p[0]: (p[1], p[2]) for p in r["params"]}, "locals": {}, "may_call": r["may_call"]}
         cx = Cx(routine=rinfo)
@@ -92,7 +95,9 @@ def sub_recipe(draw, max_budget=60, opts=None, min_level=4):
                 final = ["return", final]
             body_items = stmts + [final]
         r["locals"] = rinfo["locals"]
-        r["body"] = ["seq", init_stores(rinfo["locals"]) + body_items]
+        guard = f6_guard_loads(body_items, list(rinfo["locals"]))
+        nguards += len(guard)
+        r["body"] = ["seq", init_stores(rinfo["locals"]) + guard + body_items]
     # main
     g.budget = max(g.budget, 8)
     stmts = [g.S(cxm.sub()) for _ in range(g.i(1, 3))]
@@ -114,7 +119,20 @@ def sub_recipe(draw, max_budget=60, opts=None, min_level=4):
     final = g.U(cxm.sub()) if g.chance(7) else ["return", g.U(cxm.operand())]
     for r in g.routines:
         r.pop("callable", None)
-    recipe = {"mode": mode, "level": max(level, 4), "vars": g.vars, "routines": g.routines, "main": ["seq", init_stores(g.vars) + stmts + [final]]}
+    used_in_routines = set()
+    for r in g.routines:
+        for nd in N.walk(r["body"]):
+            if nd[0] in ("load", "store") and nd[1] in g.vars:
+                used_in_routines.add(nd[1])
+            if nd[0] in ("call", "callN"):
+                for a in nd[2]:
+                    if isinstance(a, list) and a and a[0] == "ref":
+                        used_in_routines.add(a[1])
+    guard = f6_guard_loads(stmts + [final], [n for n in g.vars if n not in used_in_routines])
+    nguards += len(guard)
+    recipe = {"mode": mode, "level": max(level, 4), "vars": g.vars, "routines": g.routines, "main": ["seq", init_stores(g.vars) + guard + stmts + [final]]}
+    if nguards:
+        recipe["f6_guards"] = nguards
     if g.anytype:
         recipe["anytype"] = True
     return recipe
